@@ -13,13 +13,14 @@ from ..attrs import Typestate, NONE, NOTNONE, UNKNOWN, abstract_of
 from .common import struct_ob, U
 from . import mcmc
 from ..report import AnalysisError
+from ..term import Resolver, pmatch
 
 PAIRS = ["MetropolisChain", "GibbsChain", "PcaChain", "HamiltonianChain", "EnsembleSampler"]
 ENTRIES = ["take_step", "advance", "run_for", "get_parameter", "get_probabilities", "get_sample",
            "get_interval", "get_marginal", "mode", "save", "matrix_plot", "trace_plot", "plot_diagnostics"]
 FLOORS = {"key-agreement": 6, "reload-defined": 40, "save-defined": 5, "restored-value-flow": 4,
           "state-persisted": 7, "key-pairing": 4,
-          "stack-roundtrip": 2}
+          "stack-roundtrip": 2, "derived-consistent": 5}
 
 
 def load_context(prog, ci):
@@ -205,6 +206,55 @@ def param_key_suffixes(prog):
     pre_w = [U(s.value) for s in gi.body if isinstance(s, ast.Assign) and U(s.targets[0]) == "i"]
     pre_r = [U(s.value) for s in ld.body if isinstance(s, ast.Assign) and U(s.targets[0]) == "i"]
     return written, wvals, read, pre_w, pre_r, pc, gi, ld
+
+
+def _derived_consistent(prog, ci, cname, lfn, lc, call, var, rel):
+    """Attributes the constructor derives from one of its parameters travel together: if load leaves that parameter to its
+    default and then overwrites some of those attributes from the file, it must overwrite (re-derive) all of them."""
+    ic, init = prog.find_method(ci, "__init__")
+    rz = Resolver(init, prog, ic.module, ic)
+    params = [a.arg for a in init.args.args[1:]] + [a.arg for a in init.args.kwonlyargs]
+    sn = init.args.args[0].arg
+    attr_terms = {}
+    for st in ast.walk(init):
+        if isinstance(st, ast.Assign):
+            for t in st.targets:
+                if isinstance(t, ast.Attribute) and isinstance(t.value, ast.Name) and t.value.id == sn:
+                    attr_terms.setdefault(t.attr, []).append(rz.term(st.value, st))
+    dep = {p: set() for p in params}
+    for a, terms in attr_terms.items():
+        for t in terms:
+            for n in ast.walk(t):
+                if isinstance(n, ast.Name) and n.id in dep:
+                    dep[n.id].add(a)
+    changed = True
+    while changed:                      # closure through attributes:  self.b = f(self.a)
+        changed = False
+        for a, terms in attr_terms.items():
+            for t in terms:
+                used = {n.attr for n in ast.walk(t) if isinstance(n, ast.Attribute) and isinstance(n.value, ast.Name) and n.value.id == sn}
+                for p in params:
+                    if used & dep[p] and a not in dep[p]:
+                        dep[p].add(a)
+                        changed = True
+    passed = {k.arg for k in call.keywords if k.arg} | set(params[:len(call.args)])
+    over = {}
+    for st in ast.walk(lfn):
+        if isinstance(st, ast.Assign):
+            for t in st.targets:
+                if isinstance(t, ast.Attribute) and isinstance(t.value, ast.Name) and t.value.id == var:
+                    over[t.attr] = st
+    why = []
+    for p in params:
+        if p in passed or len(dep[p]) < 2:
+            continue
+        hit = sorted(dep[p] & set(over))
+        miss = sorted(dep[p] - set(over))
+        if hit and miss:
+            why.append(f"load leaves constructor parameter `{p}` at its default, then restores {hit} from the file, but {miss} - which the "
+                       f"constructor derives from `{p}` - keep the values computed for the default")
+    return struct_ob("derived-consistent", f"{ci.module.name}.{cname}.load", not why, "; ".join(why), rel, lfn.lineno,
+                     slots={"derived_from": {p: sorted(v) for p, v in dep.items() if len(v) > 1}, "passed": sorted(passed)})
 
 
 def run(prog, tier):
@@ -430,6 +480,8 @@ def run(prog, tier):
         obs.append(struct_ob("state-persisted", f"{ci.module.name}.{cname}.save/load", not lost,
                              f"attributes mutated by {step_entry} but not persisted or not restored: {lost}", rel, sfn.lineno,
                              detail=",".join(lost), slots={"mutated": sorted(W), "saved": sorted(saved_attrs)}))
+
+        obs.append(_derived_consistent(prog, ci, cname, lfn, lc, call, var, rel))
 
     meta = {
         "explanation": "Attribute typestate: the constructor chain of each sampler is interpreted abstractly over "
